@@ -9,17 +9,21 @@ PROP = dict(
                     "for capacities 4..12 quick / 4..32 thorough), rings rotated with mpt_queue_align so that the open encoder block and "
                     "the decoded data straddle the wrap.  Stream level: two mpt_stream objects on non-blocking pipes / stream sockets, "
                     "mpt_stream_push / mpt_stream_flush on one side, the harness moving the bytes in chosen segments, mpt_stream_poll / "
-                    "mpt_stream_dispatch on the other.  After each operation the messages obtained are compared with the sent log "
+                    "mpt_stream_dispatch on the other.  C++ level: mpt::encode_queue (push, done, trim with full / partial / excessive amounts) -> "
+                    "wire -> mpt::decode_queue (advance, pending_message, current_message with and without continuation vector) on fixed rings "
+                    "of 32..128 bytes and growable rings, 4 COBS framings + command framing, with return-value-versus-effect checks for "
+                    "every call.  After each operation the messages obtained are compared with the sent log "
                     "(exactly once, in order, byte-equal; decoded part of the message in progress is a prefix of the next message), "
                     "queue invariants are checked, and a complete frame has to be delivered within a bounded number of receive "
                     "attempts once the reader got the space it asked for.  Exploration, not proof."),
-        level_note=("trusts the sent/received log comparison in harness/c02_queue.c and c02_stream.c, delimiter counting as "
+        level_note=("trusts the sent/received log comparison in harness/c02_queue.c, c02_stream.c and c02_cxx.cpp, delimiter counting as "
                     "frame-completeness test, gcc ASan+UBSan red zones; stalls are decided as bounded progress in receive attempts"),
         legs=[dict(name="c02_queue", memcheck=600, src=["c02_queue.c"], libs=["mptcore"], batch=64,
                    floors={"mpt_queue_push": 1000000, "mpt_queue_recv": 1000000, "mpt_message_get": 300000,
                            "mpt_queue_peek": 100000, "mpt_queue_shift": 100000,
                            "recv:message": 300000, "recv:MissingBuffer": 5000, "monitor:partial-prefix": 1000000,
                            "push-path:upper-part": 10000, "push-path:out-of-band": 2000,
+                           "state:large-push-behind-queued-frames-at-offset": 20000, "state:large-push-partial-append-in-lower-part": 5000,
                            "history:enc-wrapped": 5000, "history:dec-wrapped": 5000, "history:message-split": 5000,
                            "history:frame-in-several-segments": 20000, "monitor:progress-check": 10000}),
               dict(name="c02_stream", src=["c02_stream.c"], libs=["mptio", "mptcore"], batch=64,
@@ -28,18 +32,28 @@ PROP = dict(
                            "history:stream-frame-in-several-segments": 5000, "history:stream-dec-wrapped": 2000,
                            "history:flush-met-full-transport": 20, "monitor:stream-progress-check": 10000}),
               dict(name="c02_cxx", src=["c02_cxx.cpp"], libs=["mpt++", "mptio", "mptplot", "mptcore"], batch=64,
-                   floors={"encode_queue::push": 100, "encode_queue::trim": 100, "decode_queue::advance": 100})],
+                   floors={"encode_queue::push": 300000, "encode_queue::trim": 300000, "decode_queue::advance": 500000,
+                           "decode_queue::current_message": 100000, "decode_queue::current_message(no cont)": 30000,
+                           "advance:cxx-message": 100000, "monitor:cxx-trim-effect": 300000, "monitor:cxx-push-effect": 300000,
+                           "state:cxx-wrapped-message-via-continuation": 5000, "state:cxx-trim-crossing-storage-end": 1000,
+                           "state:cxx-trim-all-with-unfinished-message": 20000, "state:cxx-trim-partial": 20000,
+                           "state:cxx-empty-message-last-in-data": 2000, "state:cxx-large-push-behind-queued-frames-at-offset": 2000,
+                           "trim:cxx-refused-too-much": 10000, "history:cxx-enc-wrapped": 1000, "history:cxx-dec-wrapped": 5000,
+                           "monitor:cxx-conservation-at-end": 10000})],
         rule=("case = one history.  Queue leg: framing, encode/decode ring capacity and start offset, 5..60 messages (length 0..1600, "
               "thorough ..4200; unique ids; zero pairs, block-boundary lengths), PRNG schedule of push piece / terminate / move k "
               "finished bytes (1 byte, up to / just behind a delimiter, behind a code byte, all) / receive / shift / peek / rotate ring; "
               "stream leg: 4..30 messages, schedule of stream push / flush / pump k bytes between the pipes / poll+dispatch.  "
-              "Non-trivial = at least 3 messages delivered, at least one frame reached the reader in several segments and (queue leg) "
+              "C++ leg: 5..40 messages (fixed rings: at most a third / fifth of the ring), schedule of push / trim / feed / advance "
+              "(single and catch-up loops running onto the drained queue) / shift / re-read.  Non-trivial = at least 3 messages delivered, at least one frame reached the reader in several segments and (queue leg) "
               "a ring wrapped at least once; distinct = 64-bit hash of parameters, message bytes and the operation list"),
         exhaustive_note="queue leg: every start offset of both rings for capacities 4..12 (quick) / 4..32 (thorough) x 4 framings (message content and schedule sampled)",
         assumptions=SAN_BASE + ["frames contain no interior zero byte, so the number of delimiters moved is the number of complete frames at the reader",
                                 "[data.pos, +data.len) of a decode_queue holds the decoded bytes of the message in progress (source comments, examples/core/coding.c)",
                                 "rings may be enlarged with mpt_queue_prepare after MissingBuffer / when full, and rotated with mpt_queue_align, at any time "
                                 "(positions are relative to the queue start)",
+                                "C++ leg: advance() consumes the current message, so a message pending after advance() is the next one; "
+                                "a fixed ring that is full without a pending message ends the history (capacity, not a stall)",
                                 "stream leg: transports are non-blocking pipes and AF_UNIX stream sockets; datagram mode is not driven",
                                 "mpt_queue_peek: return value and copied bytes are only required to be the decoded length / a prefix of the next message"],
     )
